@@ -19,3 +19,7 @@ Fixpoint comps_prefix (a b : list str) : bool :=
   | x :: a', y :: b' => str_eqb x y && comps_prefix a' b'
   | _ :: _, [] => false
   end.
+
+(* Windows: components are separated by either separator.  The root's prefix (drive, UNC, verbatim) is not interpreted:
+   whatever the root's own first components are stays in front.  Model-only (std's Windows rules cannot be executed here). *)
+Definition win_comps (s : str) : list str := filter real_component (split_seps s).
